@@ -6,14 +6,19 @@ import PyaModel.Spec.Suppress
     lines : space-separated source lines, each as dot-separated decimal code points (`-` = empty line)
     raw   : space-separated `show_error` calls `cap,node,code,msg,line,col,obey,save`
             node = `-` | `n<k>` | `f<line>.<col>`; code/msg = token or `-`; line/col = number or `-`
-  → `model=<fails | EXC:IndexError> used=<sorted used_ignores> spec=<fails> D=<class | ->`
-    fails = `;`-joined `code@line.col` (`-` if empty): model = `Emit.check`, spec = `Emit.specCheck`
+`E|<off>|<lines>|<raw>|<src>`   same, with the source text (one line in the encoding above)
+  → `model=<fails | EXC:IndexError> used=<sorted used_ignores> spec=<fails> D=<class | -> [sl=<ok|DIFF>]`
+    fails = `;`-joined `code@line.col` (`-` if empty): model = `C11.check`, spec = `C11.specCheck`;
+    with a source: `sl` says whether `C11.pyLines src` is the given line list, spec is evaluated on
+    `C11.tokLines src`, and D is `splitlinesMismatch` when `D11_splitlinesMismatch src`
+
+`S|<src>`  → `py=<pyLines, encoded> tok=<tokLines, encoded>`
 
 `O|<insts>|<path>|<code>|<default>`
     insts : space-separated `name,value,applicable_to,from_cmd,priority` (applicable_to dot-joined or `-`)
-  → `en=<0|1>`   (`Emit.isErrorCodeEnabled`)
+  → `en=<0|1>`   (`C11.isErrorCodeEnabled`)
 -/
-open Pya Pya.Emit
+open Pya.C11
 
 def words (s : String) : List String := (s.splitOn " ").filter (· != "")
 
@@ -68,19 +73,36 @@ def parseInst (t : String) : Option Inst :=
            fromCmd := (← parseBool cmd), priority := (← pr.toNat?) }
   | _ => none
 
+def encLine (l : Line) : String :=
+  if l.isEmpty then "-" else ".".intercalate (l.map fun c => toString c.toNat)
+
+def encLines (ls : List Line) : String := " ".intercalate (ls.map encLine)
+
+def handleE (off ls raw : String) (src : Option String) : String :=
+  match (words ls).mapM parseLine, (words raw).mapM parseRaw, src.mapM parseLine with
+  | some ls, some raw, some src =>
+    let off := if off == "-" then [] else off.splitOn ","
+    let en : String → Bool := fun c => !off.contains c
+    let model := match check en ls raw with
+      | some st => s!"model={showFails st.fails} used={showUsed st.used}"
+      | none => "model=EXC:IndexError used=-"
+    let specLines := match src with | some s => tokLines s | none => ls
+    let d := if (match src with | some s => D11_splitlinesMismatch s | none => false) then "splitlinesMismatch"
+      else if D11_lineOneWrap en ls raw then "lineOneWrap" else "-"
+    let sl := match src with
+      | some s => if pyLines s == ls then " sl=ok" else " sl=DIFF"
+      | none => ""
+    s!"{model} spec={showFails (specCheck en specLines raw)} D={d}{sl}"
+  | _, _, _ => "bad-op"
+
 def handle (line : String) : String :=
   match line.splitOn "|" with
-  | ["E", off, ls, raw] =>
-    match (words ls).mapM parseLine, (words raw).mapM parseRaw with
-    | some ls, some raw =>
-      let off := if off == "-" then [] else off.splitOn ","
-      let en : String → Bool := fun c => !off.contains c
-      let model := match check en ls raw with
-        | some st => s!"model={showFails st.fails} used={showUsed st.used}"
-        | none => "model=EXC:IndexError used=-"
-      let d := if D11_lineOneWrap en ls raw then "lineOneWrap" else "-"
-      s!"{model} spec={showFails (specCheck en ls raw)} D={d}"
-    | _, _ => "bad-op"
+  | ["E", off, ls, raw] => handleE off ls raw none
+  | ["E", off, ls, raw, src] => handleE off ls raw (some src)
+  | ["S", src] =>
+    match parseLine src with
+    | some s => s!"py={encLines (pyLines s)} tok={encLines (tokLines s)}"
+    | none => "bad-op"
   | ["O", insts, path, code, dflt] =>
     match (words insts).mapM parseInst, parseBool dflt with
     | some insts, some d =>
